@@ -82,6 +82,7 @@ func (m *Manager) remove(addr string) {
 	}
 	delete(m.conns, addr)
 	if c.c != nil {
+		verifPoint("connection.close", c.c)
 		if err := c.c.Close(); err != nil {
 			log.Errorf("Error cleaning up connection %q: %v", addr, err)
 		}
@@ -101,6 +102,7 @@ func (m *Manager) dial(ctx context.Context, addr, dialer string, c *connection) 
 	}
 	if err != nil {
 		log.Infof("Error creating gRPC connection to %q: %v", addr, err)
+		verifPoint("connection.dialfail", addr)
 		m.mu.Lock()
 		m.remove(addr)
 		c.err = err
@@ -165,6 +167,7 @@ func (m *Manager) Connection(ctx context.Context, addr, dialer string) (conn *gr
 		}
 		c.ref++
 		m.mu.Unlock()
+		verifPoint("connection.join", addr)
 
 		<-c.ready
 		if c.err != nil {
